@@ -109,7 +109,7 @@ fn run_seam(plan: &ExPlan, want_trace: bool) -> RunOut {
             return out;
         }
     };
-    let in_set = buf.len() >= 2 && info.in_alphabet((buf[0], buf[1]));
+    let in_set = buf.len() >= 2 && (info.in_alphabet((buf[0], buf[1])) || seqs::library_extends_reply_set(plan.seq, buf));
     if !in_set {
         if let Some(g) = got {
             out.fail("extra_item", sig, format!("buffer {} (shorter than two bytes or outside the reply set) was parsed as {g}", crate::conn::hex(buf)));
@@ -121,8 +121,7 @@ fn run_seam(plan: &ExPlan, want_trace: bool) -> RunOut {
         // refusing a damaged buffer is always acceptable here (valid packets are judged through the transport)
         None => {}
         Some(g) => {
-            let ok = seqs::split_variant(&g).map(|(_, inner)| own.iter().any(|o| o == inner)).unwrap_or(false);
-            if !ok {
+            if seqs::item_matches_own_decode(&g, buf) == Some(false) {
                 out.fail("item_content", sig, format!("reply parser returned {g} for buffer {}, its packet type decodes the same buffer as {:?}", crate::conn::hex(buf), own));
             }
         }
